@@ -15,7 +15,7 @@ import logging
 import numpy as np
 from hypothesis import strategies as st
 
-from vf.harness import Clause, Info, require, Violation
+from vf.harness import Clause, Info, require
 from vf import ref_cluster as rc
 
 from enspara.cluster import kcenters as kc_mod
